@@ -711,7 +711,7 @@ func (s *Sim) Drain(final func()) bool {
 	if final != nil {
 		s.goPermissive("teardown", final)
 	}
-	deadline := time.Now().Add(3 * time.Hour)
+	deadline := time.Now().Add(1000 * 24 * time.Hour)
 	for i := 0; i < 200000; i++ {
 		synctest.Wait()
 		s.mu.Lock()
@@ -766,7 +766,7 @@ func (s *Sim) Drain(final func()) bool {
 		}
 		select {
 		case <-s.notify:
-		case <-time.After(time.Hour):
+		case <-time.After(24 * time.Hour):
 		}
 	}
 	return false
